@@ -531,6 +531,18 @@ func (root *Root) replaceArgVars(vars map[string]interface{}, v interface{}, at 
 	return
 }
 
+// metaArgs refuses the arguments of a meta-field other than the one it
+// defines, name for __type and none for __typename and __schema.
+func metaArgs(field *Field, allowed string) (ea []error) {
+	for _, av := range field.Args {
+		if len(allowed) == 0 || av.Arg != allowed {
+			ea = append(ea, valError(av.line, av.col, "%s is not an argument to %s", av.Arg, field.Name))
+		}
+	}
+	Errors(ea).in(field.key())
+	return
+}
+
 func (root *Root) resolveField(
 	obj interface{},
 	vars map[string]interface{},
@@ -554,6 +566,9 @@ func (root *Root) resolveField(
 	var ea2 []error
 	switch field.Name {
 	case "__typename":
+		if ea = metaArgs(field, ""); 0 < len(ea) {
+			return
+		}
 		result[field.key()] = root.runtimeType(obj, t).Name()
 		return nil
 	case "__type":
@@ -561,6 +576,9 @@ func (root *Root) resolveField(
 			var fv interface{} // field value
 			var av *ArgValue
 
+			if ea = metaArgs(field, nameStr); 0 < len(ea) {
+				return
+			}
 			for _, av = range field.Args {
 				if av.Arg == nameStr {
 					break
@@ -594,6 +612,9 @@ func (root *Root) resolveField(
 		if root.isQueryType(t, queryType) {
 			var fv interface{} // field value
 
+			if ea = metaArgs(field, ""); 0 < len(ea) {
+				return
+			}
 			fv, ea2 = root.resolve(root, vars, field, root.uuSchemaType, depth)
 			ea = append(ea, ea2...)
 			Errors(ea).in(field.key())
